@@ -94,18 +94,25 @@ def expand(obs):
 
 
 # ----------------------------------------------------------------------------- calls
+NET = None      # the network the node is configured for during the calls (None: whatever the library defaults to)
+
+
 def _call(datadir, blocks, max_size):
     import bits.p2p as p2p
 
     old = p2p.MAX_BLOCKFILE_SIZE
+    old_magic = p2p.MAGIC_START_BYTES
     p2p.MAX_BLOCKFILE_SIZE = max_size
     try:
+        if NET:
+            p2p.set_magic_start_bytes(NET)      # the way the command line configures the network
         p2p.write_blocks_to_disk(list(blocks), datadir)
         return "ok"
     except Exception as e:  # the outcome is judged, not the class
         return "err:" + type(e).__name__
     finally:
         p2p.MAX_BLOCKFILE_SIZE = old
+        p2p.MAGIC_START_BYTES = old_magic
         gc.collect()
 
 
@@ -225,6 +232,8 @@ import sys, json
 sys.path.insert(0, {src!r})
 import bits.p2p as p2p
 p2p.MAX_BLOCKFILE_SIZE = {max_size}
+if {net!r}:
+    p2p.set_magic_start_bytes({net!r})
 blocks = [bytes.fromhex(h) for h in json.load(open({blocks!r}))]
 try:
     p2p.write_blocks_to_disk(blocks, {datadir!r})
@@ -240,7 +249,7 @@ def call_fresh(datadir, blocks, max_size, scratch):
     with open(bl, "w") as fh:
         json.dump([b.hex() for b in blocks], fh)
     src = os.path.join(vlib.REPO, "src")
-    p = subprocess.run([sys.executable, "-c", _FRESH.format(src=src, max_size=max_size, blocks=bl, datadir=datadir)],
+    p = subprocess.run([sys.executable, "-c", _FRESH.format(src=src, max_size=max_size, blocks=bl, datadir=datadir, net=NET)],
                        capture_output=True, text=True, timeout=120,
                        env=dict(os.environ, PYTHONDONTWRITEBYTECODE="1"))
     out = p.stdout.strip().splitlines()
